@@ -180,15 +180,17 @@ class Pool(object):
     """One real EventListenerPool with n real listener Subprocess objects."""
 
     def __init__(self, options, name, nlisteners, buffer_size=10, pool_events=(), handler=None,
-                 priority=999, proc_priority=999):
+                 priority=999, proc_priority=999, group_class=None):
         self.options = options
         self.pconfigs = [listener_config(options, '%s%d' % (name, i), proc_priority) for i in range(nlisteners)]
         self.gconfig = EventListenerPoolConfig(options, name, priority, self.pconfigs, buffer_size,
                                                list(pool_events), handler or sdisp.default_handler)
-        self.group = self.gconfig.make_group()       # real EventListenerPool (subscribes itself)
+        # real EventListenerPool (subscribes itself); group_class may be a recording subclass
+        self.group = self.gconfig.make_group() if group_class is None else group_class(self.gconfig)
         self.procs = [self.group.processes[c.name] for c in self.pconfigs]
         assert list(self.group.processes.values()) == self.procs
         self.write_log = []
+        self.sent_bytes = []
         for i, p in enumerate(self.procs):
             self._wrap_write(i, p)
 
@@ -196,6 +198,7 @@ class Pool(object):
         real = p.write
 
         def write(chars):
+            self.sent_bytes.append(chars)
             try:
                 r = real(chars)
             except OSError as e:
@@ -255,8 +258,11 @@ class Pool(object):
         p = self.procs[i]
         if p.state != ProcessStates.STARTING or not p.pid:
             return False
-        CLOCK.now += 10
-        p.transition()
+        CLOCK.now += 10          # past startsecs, for this call only
+        try:
+            p.transition()
+        finally:
+            CLOCK.now -= 10
         assert p.state == ProcessStates.RUNNING
         return True
 
@@ -284,11 +290,14 @@ class Pool(object):
         if d is not None:
             self.options.reads[d.fd] = last
         self.pipe(p).outcome = w
-        CLOCK.now += 0.5 if quick else 10
+        dt = 0.5 if quick else 10
+        CLOCK.now += dt
         try:
             p.finish(p.pid, 0)
         except OSError:
             return 'raise'
+        finally:
+            CLOCK.now -= dt
         return True
 
     def op_dispatch(self, event, ws):
